@@ -471,10 +471,11 @@ def run(ctx):
     import sys
     import threading
     sys.setrecursionlimit(max(sys.getrecursionlimit(), 2000000))
-    threading.stack_size(1024 * 1024 * 1024)
+    threading.stack_size(512 * 1024 * 1024)
     box = {}
 
     def body():
+        threading.stack_size(192 * 1024 * 1024)     # for the worker threads started from here
         try:
             box["r"] = _run(ctx)
         except BaseException as e:      # re-raised in the caller
